@@ -36,7 +36,10 @@ V1N = ["device", "attestation", "ui", "signer"]
 V2N = ["quote", "attestation", "quoting_enclave", "platform_ca", "a", "b", "c", "sgx_root",
        "d", "e", "f", "g", "h"]
 HEX = ["aa", "bb", "cc", "04" + "11" * 64, "3006020101020101", "00" * 432, "00" * 384,
-       "ff" + "04" + "22" * 64]
+       "ff" + "04" + "22" * 64,
+       # hex-dump spelling (blanks between the bytes), sound and damaged near the end
+       " ".join(["ab"] * 70), " ".join(["ab"] * 40) + " a", " ".join(["ab"] * 66) + " zz",
+       "ab  " * 50 + "g"]
 B64 = ["AAAA", "MIIB", "QUJD"]
 JUNK = [None, 0, 1, -1, True, 1.5, "", "x", "zz", [], [1], {}, {"name": 1}]
 DEFECTS = ["self-signed", "cycle2", "cycle3", "dangling-signer", "nonstring-signer",
@@ -187,7 +190,9 @@ def cases(draw, tier):
             e = pick()
             k = draw(st.sampled_from([p[0] for p in e if p[0] not in ("name", "signed_by",
                                                                        "type")] or ["message"]))
-            eset(e, k, draw(st.sampled_from(["", "zz", "a", "0x00", "aa bb", "!!!!"])))
+            eset(e, k, draw(st.sampled_from(["", "zz", "a", "0x00", "aa bb", "!!!!",
+                                             " ".join(["cd"] * 48) + " x",
+                                             "\n".join(["0123456789abcdef" * 2] * 6) + "q"])))
         elif d == "dup-field":
             e = pick()
             k = draw(st.sampled_from([p[0] for p in e]))
